@@ -23,6 +23,7 @@ pub mod c18;
 pub mod c19;
 pub mod c20;
 pub mod fmt;
+pub mod records;
 
 pub struct PropDef {
     pub id: &'static str,
